@@ -31,7 +31,25 @@ class C08(MTCheck):
     driver_in = "eventmt_drv.ml.in"
     open_module = "Eventmt_model"
     coq_targets = ["theories/MT/EventMT.vo", "theories/MT/EventMTLemmas.vo", "theories/MT/EventMTProofs.vo",
-                   "theories/MT/EventMTMon.vo"]
+                   "theories/MT/EventMTMon.vo",
+                   "theories/Base/CSem.vo", "theories/Gen/LeafCoreEvent.vo", "theories/MT/EventLink.vo"]
+
+    # way (a) of the tie for the poster side: the tests and stores of iv_event_post are re-translated from the current source on
+    # every run (gen/c2gallina.py -> Gen/LeafCoreEvent.v); MT/EventLink.v proves that post_cs of MT/EventMT.v appends / records
+    # the post flag exactly as the translated code does and that the wake-up the model accepts is the one the translated
+    # if-chain selects (theorems C08_post_cs_is_the_code, C08_accepted_wake_is_the_code)
+    def pre_proof(self, ctx):
+        import leafgen
+        return leafgen.regenerate(["LeafCoreEvent.v"])
+
+    def proofs(self, ctx):
+        import leafgen
+        from framework import LineCheck
+        return leafgen.explain(
+            LineCheck.proofs(self, ctx), "EventLink", "C08_post_cs_is_the_code / C08_accepted_wake_is_the_code (MT/EventLink.v)",
+            "iv_event_post of the current src/iv_event.c (queue test, post flag, choice between the owner's task, the raw-event write "
+            "and the epoll kick), as translated by gen/c2gallina.py into Gen/LeafCoreEvent.v, is not what post_cs / step of "
+            "MT/EventMT.v do any more")
     trusted = [
         "log -> label abstraction (ocaml/eventmt_drv.ml.in, unproved): one label list per owner loop k from the segments "
         "`a ep<k>.<e>`, `L/U e<k>`, `Kk <epfd of k>`, `Fw` inside a post (raw transport), `pe`, and of thread k `Wb`, `R` (kick "
